@@ -842,5 +842,8 @@ pub fn run(cfg: &RunCfg) -> i32 {
             check.violate("backpressure", &v.case, v.failure);
         }
     }
+    if !check.has_violation() {
+        super::c13l::part(&mut check, cfg);
+    }
     check.finish()
 }
